@@ -16,7 +16,7 @@ PROPS = {
                 explanation="[P] tokenisers, label/name extraction, Program.match item accounting, SequenceBase.match; [B] lexical content of printed "
                             "text vs source (bounded_tokens.py), layout independence of the reader items (bounded_layout.py)",
                 enum=["bounded_tokens.py", "bounded_layout.py --only C04", "bounded_harvest.py --only C02"],
-                witnesses=["c02_function_suffix_reordered", "c02_group_equal_to_the_content_of_an_earlier_group", "c02_tab_inside_character_literal_is_expanded", "c02_statement_after_leading_semicolon_is_lost", "c02_units_dropped_around_anonymous_main", "c02_char_selector_placeholder_leak", "c02_char_selector_kind_len_reordered",
+                witnesses=["c02_blanks_of_a_literal_in_a_function_prefix", "c02_generic_binding_without_blank_after_arrow", "c02_function_suffix_reordered", "c02_group_equal_to_the_content_of_an_earlier_group", "c02_tab_inside_character_literal_is_expanded", "c02_statement_after_leading_semicolon_is_lost", "c02_units_dropped_around_anonymous_main", "c02_char_selector_placeholder_leak", "c02_char_selector_kind_len_reordered",
                            "c02_semicolon_join_lowercases_names", "c02_initialiser_after_parenthesised_char_length"]),
     "C06": dict(level="other",
                 claim="exception-type contracts: Program.__new__ lets only FortranSyntaxError out (given the stated contract of the parse "
